@@ -229,6 +229,10 @@ func (u *upstream) getClient(addr string) (*client, error) {
 	c, err := u.createClient(addr)
 	call.res, call.err = c, err
 	close(call.done)
+	// the entry only merges concurrent attempts: once this one is over, forget it, so
+	// that a later request dials again instead of being handed its stale outcome (a
+	// connection that has since been lost, or an old connect error).
+	u.createClientCalls.Delete(addr)
 	return c, err
 }
 
